@@ -82,16 +82,49 @@ def merge_obs(dst, src):
 # --------------------------------------------------------------------------- worker
 
 
+class CaseTimeout(BaseException):
+    """Raised by the per-case alarm (BaseException: must not be swallowed by the code under
+    test)."""
+
+
+def _on_alarm(signum, frame):
+    raise CaseTimeout()
+
+
 def run_one(mod, case):
-    """Run one case; harness errors are reported separately from violations."""
+    """Run one case; harness errors are reported separately from violations.
+
+    A check may declare CASE_TIMEOUT (seconds, orders of magnitude above the normal running
+    time of a case).  A case that exceeds it is repeated alone with three times the limit;
+    only if it exceeds that as well it is reported (kind "no-termination")."""
+    import signal
     t0 = time.time()
-    try:
-        res = mod.run_case(case)
-    except BaseException as exc:  # a bug of the harness, never a verdict
-        if isinstance(exc, KeyboardInterrupt):
-            raise
-        res = {"violations": [], "harness_error": "".join(
-            traceback.format_exception(type(exc), exc, exc.__traceback__))[-4000:]}
+    limit = getattr(mod, "CASE_TIMEOUT", None)
+    res = None
+    for attempt, factor in ((1, 1), (2, 2)):
+        try:
+            if limit:
+                signal.signal(signal.SIGALRM, _on_alarm)
+                signal.alarm(int(limit * factor))
+            try:
+                res = mod.run_case(case)
+            finally:
+                if limit:
+                    signal.alarm(0)
+            break
+        except CaseTimeout:
+            if attempt == 2:
+                res = {"violations": [{
+                    "kind": "no-termination",
+                    "detail": f"the case did not finish within {limit}s and, repeated, "
+                    f"within {2 * limit}s (cases of this check normally take well under "
+                    "a second)"}]}
+        except BaseException as exc:  # a bug of the harness, never a verdict
+            if isinstance(exc, KeyboardInterrupt):
+                raise
+            res = {"violations": [], "harness_error": "".join(
+                traceback.format_exception(type(exc), exc, exc.__traceback__))[-4000:]}
+            break
     res.setdefault("violations", [])
     res["case_id"] = case.get("id")
     res["t"] = round(time.time() - t0, 3)
@@ -117,10 +150,14 @@ def worker_main(prop, cases_path, out_path):
         if hasattr(mod, "worker_init"):
             mod.worker_init()
         with open(out_path, "w") as out:
+            hung = 0
             for case in cases:
                 res = run_one(mod, case)
                 out.write(json.dumps(res, default=str) + "\n")
                 out.flush()
+                hung += any(v.get("kind") == "no-termination" for v in res["violations"])
+                if hung >= 2:
+                    break  # the verdict is already "violated"; do not wait for the rest
             tail = {"worker_done": True, "obs": {}}
             if reach is not None:
                 reach.stop()
@@ -147,7 +184,11 @@ def load_known():
 def main(argv):
     if argv and argv[0] == "--worker":
         worker_main(argv[1], argv[2], argv[3])
-        return 0
+        sys.stdout.flush()
+        sys.stderr.flush()
+        # skip atexit handlers: every ShardedFileAccessor registers close() there, and an
+        # accessor abandoned by a timed-out case must not be flushed (or hang) at exit
+        os._exit(0)
     if len(argv) < 2:
         print(__doc__)
         return 2
